@@ -120,7 +120,7 @@ def flow_b(ctx, mine, n, salt, kinds=("edited",)):
                 else:
                     vt = [rng.randrange(4) for _ in range(nvt)]      # any string is a legitimate check to supply
             rec = {"start": start, "dna": s, "vt": vt, "indel": indel, "heap": heap}
-            o = rf.run_repair(acc, start, s, k, vt, indel, heap)
+            o = rf.run_repair(acc, start, s, k, vt, indel, heap, log=(len(s) <= 200))
             cases.append(rf.case_of(gi, rec, o, w=ww, es=es))
     # conformance only: the public path_matching function with its (kind, position, nucleotide) annotations and look-up count
     for gi, g in enumerate(graphs[:12], 1):
